@@ -266,6 +266,11 @@ def run(chk):
     for b_ in bad[:4]:
         chk.fail('R04.6', 'call-bytes-differ:' + b_.split(':')[0], b_, 'wasmCWriteFunctionCode:call-in-dead-code')
     chk.floor('R04.6', 8)
+    # R04.7: "every call delivers its result to the caller's operand stack": the callee returns the slot its own stack discipline put the
+    # result in - each function is translated with an empty operand stack, whatever the function written before it to the same file left
+    # behind (a void function may end with operands still on the stack); rule shared with C03 R03.2 / C09 R09.10
+    c03.check_function_sequence(chk, rule='R04.7')
+    chk.floor('R04.7', 20)
     chk.floor('R04.1', 40)
     chk.floor('R04.2', 12)
     chk.floor('R04.3', 20)
